@@ -284,6 +284,9 @@ impl Sut {
         if let Some(store) = self.store.take() {
             self.sess.install();
             drop(store);
+            // every worker of that store has exited (a worker that saw the shutdown flag
+            // in its visible wait counted itself busy and never reports completion)
+            self.sess.busy_workers.store(0, Ordering::SeqCst);
         }
     }
 
